@@ -142,6 +142,7 @@ type workerOut struct {
 	Stub        []string         `json:"stub"`
 	Doc         string           `json:"doc"`
 	Cases       []string         `json:"cases"`
+	CaseTotal   int              `json:"case_total"`
 	Observed    map[string]int64 `json:"observed_other_classes"`
 }
 
@@ -231,6 +232,9 @@ func TestSim(t *testing.T) {
 			out.Hits[k] += v
 		}
 		fpsAll[res.Fingerprint] = struct{}{}
+		if res.CaseTotal > out.CaseTotal {
+			out.CaseTotal = res.CaseTotal
+		}
 		if res.Case != "" && len(cases) < 20000 {
 			cases[res.Case] = struct{}{}
 		}
